@@ -263,6 +263,42 @@ def vconst(c, born=0):
     return Val(dim=D0, const=c, kind="other", born=born)
 
 
+def alt_objs(v):
+    """the objects a value may be: its own, or the alternatives recorded when different objects met at a merge."""
+    if v is None:
+        return frozenset()
+    out = set()
+    if v.obj is not None:
+        out.add(v.obj)
+    for t in v.tags:
+        if isinstance(t, tuple) and t and t[0] == "objs":
+            out |= set(t[1])
+    return frozenset(out)
+
+
+def _alt_objs(a, b):
+    if a.obj is not None and a.obj == b.obj:
+        return frozenset()
+    alts = alt_objs(a) | alt_objs(b)
+    if len(alts) > 1 or (alts and (a.obj is None or b.obj is None) and (a.obj != b.obj)):
+        return frozenset([("objs", frozenset(alts))])
+    return frozenset()
+
+
+def _alt_fns(a, b):
+    """two different functions met at a merge: remember the alternatives (called one by one, results joined)."""
+    if a.kind == "func" and b.kind == "func":
+        fns = []
+        for v in (a, b):
+            cand = [v.fn] if v.fn is not None else (list(v.extra[1]) if (v.extra and isinstance(v.extra, tuple) and v.extra[0] == "fns") else [])
+            for f in cand:
+                if not any(f is g for g in fns):
+                    fns.append(f)
+        if fns:
+            return ("fns", fns)
+    return None
+
+
 def join_vals(a: Optional[Val], b: Optional[Val]) -> Optional[Val]:
     if a is None:
         return b
@@ -291,7 +327,7 @@ def join_vals(a: Optional[Val], b: Optional[Val]) -> Optional[Val]:
         const=a.const if same_const else NOCONST,
         kind=a.kind if a.kind == b.kind else ("unknown" if "none" not in (a.kind, b.kind) else (a.kind if b.kind == "none" else b.kind)),
         obj=a.obj if a.obj == b.obj else None,
-        tags=(a.tags & b.tags) | ((a.tags | b.tags) & MAY_TAGS),
+        tags=(a.tags & b.tags) | ((a.tags | b.tags) & MAY_TAGS) | _alt_objs(a, b),
         items=items,
         mapping=mapping,
         fn=a.fn if a.fn is b.fn else None,
@@ -302,5 +338,5 @@ def join_vals(a: Optional[Val], b: Optional[Val]) -> Optional[Val]:
         pdeps=a.pdeps | b.pdeps,
         guardp=a.guardp & b.guardp,
         born=min(a.born, b.born),
-        extra=a.extra if a.extra == b.extra else None,
+        extra=a.extra if a.extra == b.extra else _alt_fns(a, b),
     )
